@@ -23,6 +23,10 @@ uint64_t Conn::seq_when_arrived(size_t cum) const {
 	for (auto &p : arrive_log) if (p.second >= cum) return p.first;
 	return 0;
 }
+uint64_t Conn::seq_when_read(size_t cum) const {
+	for (auto &p : recv_log) if (p.second >= cum) return p.first;
+	return 0;
+}
 uint64_t Conn::seq_when_sent(size_t cum) const {
 	for (auto &p : sent_log) if (p.second >= cum) return p.first;
 	return 0;
@@ -32,6 +36,7 @@ void Net::reset() {
 	eps.clear();
 	conns.clear();
 	resolved.clear();
+	dnsfail_log.clear();
 	on_block = nullptr;
 	max_fds_open = 0;
 }
@@ -146,7 +151,8 @@ int __wrap_getaddrinfo(const char *node, const char *service, const struct addri
 	}
 	if (N.eps[ep].dnsfail_next > 0) {
 		N.eps[ep].dnsfail_next--;
-		K.ev("dns %s:%s -> AGAIN (fault)", h.c_str(), p.c_str());
+		uint64_t sq = K.ev("dns %s:%s -> AGAIN (fault)", h.c_str(), p.c_str());
+		N.dnsfail_log.push_back({sq, ep});
 		K.count("fault.dnsfail");
 		return EAI_AGAIN;
 	}
@@ -233,9 +239,10 @@ int __wrap_connect(int fd, const struct sockaddr *addr, socklen_t len) {
 	c->ep = ep;
 	c->st = Conn::SYN_SENT;
 	c->ready_at = K.now_ms + e.connect_delay_ms;
+	c->opened_ms = K.now_ms;
 	if (e.blackhole) { c->will_blackhole = true; K.count("fault.blackhole_connect"); }
 	else if (e.refuse_next > 0) { e.refuse_next--; c->will_refuse = true; K.count("fault.refuse"); }
-	K.ev("connect c%d -> ep%d nb=%d refuse=%d bh=%d delay=%d", c->idx, ep, c->nonblock, c->will_refuse, c->will_blackhole, e.connect_delay_ms);
+	c->connect_seq = K.ev("connect c%d -> ep%d nb=%d refuse=%d bh=%d delay=%d", c->idx, ep, c->nonblock, c->will_refuse, c->will_blackhole, e.connect_delay_ms);
 	if (c->nonblock) {
 		errno = EINPROGRESS;
 		return -1;
@@ -314,7 +321,8 @@ ssize_t __wrap_recv(int fd, void *buf, size_t len, int flags) {
 			if (e.recv_cut && n > e.recv_cut) { n = e.recv_cut; K.count("fault.recv_cut"); }
 			memcpy(buf, c->s2c_all.data() + c->s2c_read, n);
 			c->s2c_read += n;
-			K.ev("recv c%d len=%zu -> %zu", c->idx, len, n);
+			uint64_t sq = K.ev("recv c%d len=%zu -> %zu", c->idx, len, n);
+			c->recv_log.push_back({sq, c->s2c_read});
 			syscall_tick(true);
 			return (ssize_t)n;
 		}
@@ -353,7 +361,7 @@ ssize_t __wrap_send(int fd, const void *buf, size_t len, int flags) {
 		if (room > 0 && len > 0) {
 			size_t n = len < room ? len : room;
 			if (e.send_cut && n > e.send_cut) n = e.send_cut;
-			if (n < len) K.count("fault.partial_send");
+			if (n < len) { K.count("fault.partial_send"); c->had_partial_send = true; }
 			if (!c->nonblock && e.eintr_next > 0) { e.eintr_next--; K.count("fault.eintr"); syscall_tick(true); K.ev("send c%d -> EINTR", c->idx); errno = EINTR; return -1; }
 			c->c2s.append((const char *)buf, n);
 			uint64_t s = K.ev("send c%d len=%zu -> %zu (=%zu)", c->idx, len, n, c->c2s.size());
